@@ -80,6 +80,13 @@ func verifCLICheck(a, b JsonNode, fi int) string {
 	defer os.RemoveAll(dir)
 	text := func(n JsonNode) string {
 		if fs.yaml {
+			// the input files of odd-numbered pairs are in flow style (the JSON text, where the YAML
+			// reader reads it as the same document), so that they do not come from the writer under test
+			if j := n.Json(); (len(j)+len(fs.args))%2 == 1 {
+				if r, err := ReadYamlString(j); err == nil && r.Equals(n) && n.Equals(r) {
+					return j
+				}
+			}
 			return n.Yaml()
 		}
 		return n.Json()
@@ -411,7 +418,7 @@ func verifStaleFile() []byte {
 // last value, CR, a line over 64 KiB) a careless reader of files or of stdin changes.
 func verifCLIText(a, b JsonNode, fi int) string { return verifCLICheck(a, b, fi) }
 
-// verifCLIPatchSpelling (C14, C12, C10): `jd -p -f merge|patch [-yaml] PATCH DOC` reads PATCH as JSON
+// verifCLIPatchSpelling (C14): `jd -p -f merge|patch [-yaml] PATCH DOC` reads PATCH as JSON
 // whatever its spelling - escaped slashes, \u escapes incl. surrogate pairs, exponents, integers
 // beyond int64, insignificant white space - and prints what the library gives for that text; the
 // -yaml flag only selects how DOC is read and how the result is written. i picks the spelling.
@@ -481,3 +488,10 @@ func verifCLIPatchSpelling(i int) string {
 	}
 	return ""
 }
+
+// verifCLIBigMembers (C14, C15): verifCLICheck over arrays with large members under the set options:
+// the bytes printed by a fresh process equal the bytes this process renders.
+func verifCLIBigMembers(a, b JsonNode, fi int) string { return verifCLICheck(a, b, fi) }
+
+// verifCLINumbers (C14): verifCLICheck over documents with numbers at representation edges.
+func verifCLINumbers(a, b JsonNode, fi int) string { return verifCLICheck(a, b, fi) }
